@@ -422,7 +422,7 @@ for _nm, _cls in (("send_dwr", "DeviceWatchdogRequest"), ("send_dpr", "Disconnec
                                                   "and new_out(conn).header.hop_by_hop_identifier != 0 and "
                                                   "new_out(conn).header.end_to_end_identifier == succ32(old(self.end_to_end_seq._sequence))"),
                         ("generators-stay-in-range", "seq_ok(conn.hop_by_hop_seq) and seq_ok(self.end_to_end_seq)")] + _extra,
-               ghost_modifies=["conn._write_msg_queue.g_put"], modifies=_mods, props=["C11", "C16", "C18", "C06"])
+               ghost_modifies=["conn._write_msg_queue.g_put"], modifies=_mods, props=["C11", "C16", "C18", "C06", "C09"])
 
 R.macro("now0", [], "int(old(clock()))")
 R.macro("now1", [], "int(clock())")
@@ -584,6 +584,10 @@ R.contract("Node.route_request", params={"self": "Node", "app": "Application", "
                      "old(rq_list_known(self, app, message)) and q in old(rq_list(self, app, message)) and "
                      "ready_peer(q) and result[0] == some(q.connection)"),
                     ("hop-by-hop-nonzero", "message.header.hop_by_hop_identifier != 0"),
+                    ("a-new-hop-by-hop-id-is-drawn-from-the-connections-generator",
+                     "implies(old(message.header.hop_by_hop_identifier) == 0, "
+                     "message.header.hop_by_hop_identifier == succ32(old(result[0].hop_by_hop_seq._sequence)) and "
+                     "result[0].hop_by_hop_seq._sequence == message.header.hop_by_hop_identifier)"),
                     ("keeps-a-given-hop-by-hop", "implies(old(message.header.hop_by_hop_identifier) != 0, "
                                                  "message.header.hop_by_hop_identifier == old(message.header.hop_by_hop_identifier))"),
                     ("answer-correlation-recorded", "mkey(message) in self._app_waiting_answer and "
@@ -591,7 +595,7 @@ R.contract("Node.route_request", params={"self": "Node", "app": "Application", "
            raises=[Raise("NotRoutable", "not (rq_list_known(self, app, message) and p in rq_list(self, app, message) and ready_peer(p))", "only_if")],
            ghost_modifies=["self.g_sel_offer"],
            modifies=["message.header.hop_by_hop_identifier", "*SequenceGenerator._sequence", "dict:self._app_waiting_answer"],
-           props=["C10", "C16", "C06"],
+           props=["C10", "C16", "C06", "C12"],
            note="p is an arbitrary witness peer: NotRoutable only if p is not an eligible ready peer (so: raised only when no "
                 "eligible peer exists); on NotRoutable the frame shows that no table changed and nothing was queued")
 R.loop("Node.route_request", 0,
@@ -665,3 +669,12 @@ _sm.ghost = _copy.copy(_sm.ghost)
 _sm.ghost["app"] = _parse_kind("Application")
 R.contracts["Application.send_request"].call_overrides = {"Node.send_message": _sm}
 R.contracts["Application.send_request"].ghost_bind = {"Node.send_message": {"app": "self"}}
+
+# C10 (schedules): the waiter is woken only AFTER its answer has been stored (the blocked sender reads waiting.answer as soon
+# as the event is set).  Call-site obligation inside Application.receive_answer on Event.set.
+_es = _copy.copy(R.contracts["Event.set"])
+_es.requires = list(_es.requires) + [_Clause("answer-stored-before-the-waiter-is-woken", "not is_none(wm.answer) and wm.event == self")]
+_es.ghost = _copy.copy(_es.ghost)
+_es.ghost["wm"] = _parse_kind("WaitingMessage")
+R.contracts["Application.receive_answer#impl"].call_overrides = {"Event.set": _es}
+R.contracts["Application.receive_answer#impl"].ghost_bind = {"Event.set": {"wm": "waiting"}}
